@@ -44,6 +44,10 @@ TReset == IsEvent("Reset")
 TSkip == (IsEvent("Rejected") \/ IsEvent("CrashStop") \/ IsEvent("End")) /\ UNCHANGED vars
 TNext == TStart \/ TAlarm \/ TReceive \/ TSkip \/ TReset
 TSpec == TInit /\ [][TNext]_tvars
+\* acceptance: some behaviour of the spec explains the whole trace.  (The number of distinct states may exceed the number of lines: where the
+\* code's choice is not observable -- e.g. the order in which queued messages of equal round and phase are drained at instance start, which
+\* decides whose justification is stored first -- the spec branches and every branch that matches the logged results is followed.)
+Consumed == l = Len(TraceLog) + 1 => PrintT("VERIF_CONSUMED")
 
 N == Cfg.n
 BC == Range(Cfg.byz)
